@@ -276,6 +276,9 @@ func (e *Engine) split(x Value, lo, hi int64) int64 {
 func (e *Engine) wantLabel(label string) (string, bool) {
 	// "C01,C07:name" restricts an assertion to the named properties
 	if i := strings.Index(label, ":"); i > 0 && label[0] == 'C' && e.spec.Property != "C00" {
+		if strings.HasPrefix(label[i+1:], "inv-") {
+			return label, true // representation invariants are the induction hypothesis of every property
+		}
 		for _, p := range strings.Split(label[:i], ",") {
 			if p == e.spec.Property {
 				return label, true
